@@ -41,6 +41,9 @@ def run(ctx, report):
     report.section("keys and splitting", keys_and_split, ctx, report)
     from . import webvtt_layout_fold, markup_writer_fold
     report.section("written DFXP documents", markup_writer_fold.run, ctx, report, {"layout": ("R-DOC-LAYOUT", "1")})
+    from . import dfxp_reader_fold
+    report.section("generated DFXP documents", dfxp_reader_fold.run, ctx, report, {
+        "layout": ("R-DOC-LAYOUT", "1"), "roundtrip": ("R-ROUNDTRIP", "1")})
     report.section("WebVTT cue settings on a grid", webvtt_layout_fold.run, ctx, report, {
         "arith": ("R-GRID", "2", "position = left + left padding, line = top + top padding, size = width - horizontal paddings"),
         "align": ("R-GRID", "2", "align is the layout's horizontal alignment, omitted when centred"),
